@@ -148,7 +148,7 @@ class C20(Prop):
             inst = gen.make_ordinal(gen.from_json_profile(case["profile"]), alts=case["alts"])
         fn = {"kt": D.kendall_tau_distance, "fr": D.spearman_footrule_distance,
               "se": D.sertel_distance,
-              "asym": lambda x, y: x[0][0] * 1000 + y[0][0] + 7 * len(x)}[case["fn"]]
+              "asym": lambda x, y: int(x[0][0]) * 1000 + int(y[0][0]) + 7 * len(x)}[case["fn"]]
         r = call(D.distance_matrix, inst, fn)
         if r[0] == "ok":
             try:
